@@ -163,5 +163,18 @@ static void blk_ecdh(void) {
 		switch (v) { case 0: memset(oct + 1, 0, 64); nm = "zero"; break; case 1: oct[64] ^= 1; nm = "y^1"; break; case 2: sr_bn_to_bytes32(oct + 1, sr_p()); nm = "x=p"; break; case 3: memset(oct + 1, 0xff, 32); nm = "x=ff"; break; case 4: oct[0] = 5; nm = "prefix5"; break; case 5: ol = 64; nm = "len64"; break; case 6: ol = 66; nm = "len66"; break; case 7: oct[0] = 0; ol = 1; nm = "infinity-octet"; break; }
 		int r = sm2_ecdh(&KEYS[3], oct, ol, out); vh_eval(vh_mix(v + 5000)); if (r == 1) { char key[96]; snprintf(key, sizeof key, "C02:ecdh:invalid-peer-accepted:%s", nm); vh_viol(key, "\"peer\":\"%s\",\"out\":\"%s\"", vh_hex(oct, ol), vh_hex(out, 64)); } }
 }
-static void body(void) { blk_roundtrip(); blk_malformed(); blk_ecdh(); }
+/* the pre-computation interface: sm2_encrypt_pre_compute draws eight (k, [k]G) pairs; sm2_do_encrypt_ex with pair i must give exactly the
+   GB/T ciphertext for that k (0 = this nonce is unusable, try another) and it must open */
+static void blk_precomp(void) {
+	if (!vh_block_begin("pre-computed-nonces")) return;
+	for (int d = 0; d < ND; d++) for (int rep = 0; rep < 4; rep++) { if (!vh_next()) continue; venv_reset(7700 + d * 10 + rep); SM2_ENC_PRE_COMP pc[SM2_ENC_PRE_COMP_NUM]; int r = sm2_encrypt_pre_compute(pc); if (r != 1) { vh_viol("C02:precomp:pre_compute-refused", "\"ret\":%d", r); continue; }
+		for (int i = 0; i < SM2_ENC_PRE_COMP_NUM; i++) for (int li = 0; li < 4; li++) { static const size_t LL[] = { 1, 2, 32, 255 }; size_t n = LL[li]; uint8_t kb[32], c1[64], c3[32], c2[256], out[300]; size_t ol = 0; sm2_z256_to_bytes(pc[i].k, kb); SM2_CIPHERTEXT C; memset(&C, 0xEE, sizeof C);
+			int rok = sr_encrypt(PUB[d], kb, PT[li % 3], n, c1, c3, c2); r = sm2_do_encrypt_ex(&PUBKEYS[d], &pc[i], PT[li % 3], n, &C); size_t kk[4] = { (size_t)d, (size_t)rep, (size_t)i, n }; vh_eval(vh_hash(kk, sizeof kk, 55));
+			if (!rok) { if (r == 1) vh_viol("C02:precomp:unusable-nonce-accepted", "\"k\":\"%s\",\"len\":%zu", vh_hex(kb, 32), n); continue; }
+			if (r != 1 || memcmp(&C.point, c1, 64) || memcmp(C.hash, c3, 32) || C.ciphertext_size != n || memcmp(C.ciphertext, c2, n)) { vh_viol("C02:precomp:sm2_do_encrypt_ex:differs-from-equations", "\"key\":\"%s\",\"k\":\"%s\",\"len\":%zu,\"ret\":%d", DNAME[d], vh_hex(kb, 32), n, r); continue; }
+			r = sm2_do_decrypt(&KEYS[d], &C, out, &ol); if (r != 1 || ol != n || memcmp(out, PT[li % 3], n)) vh_viol("C02:precomp:does-not-open", "\"key\":\"%s\",\"len\":%zu", DNAME[d], n); }
+		/* the eight nonces of one pre-computation are distinct */ for (int i = 0; i < SM2_ENC_PRE_COMP_NUM; i++) for (int j = i + 1; j < SM2_ENC_PRE_COMP_NUM; j++) if (!memcmp(pc[i].k, pc[j].k, 32)) vh_viol("C02:precomp:nonce-repeated", "\"i\":%d,\"j\":%d", i, j);
+		vh_sample("{\"block\":\"pre-computed-nonces\",\"key\":\"%s\",\"pairs\":8}", DNAME[d]); }
+}
+static void body(void) { blk_roundtrip(); blk_malformed(); blk_ecdh(); blk_precomp(); }
 int main(int argc, char **argv) { vh_init(argc, argv); setup(); vh_guarded("C02", body, 60); return vh_finish(); }
